@@ -6,6 +6,11 @@ import (
 
 func reformatDescription(input string, maxWidth int) []string {
 	lines := strings.Split(input, "\n")
+	// leading empty lines are dropped however many there are, so that the
+	// result is stable when formatted again
+	for len(lines) > 1 && strings.TrimSpace(lines[0]) == "" {
+		lines = lines[1:]
+	}
 	linesOut := []string{}
 
 	pend := ""
